@@ -270,8 +270,10 @@ def scenario(sim):
     a._close()
     link.a.close()
     sim.join_task(atask, 5.0)
+    # distinct = distinct (identity list, sequence of (key, algorithm, agent action)); non-trivial = a stream fault fired
     return {"sample": {"identities": [i[1].decode() for i in ids], "calls": calls[:6], "p_frag": ka.p_frag,
-                       "p_short": ka.p_short}, "nontrivial": True, "counts": sorted(set(c[2] for c in calls))}
+                       "p_short": ka.p_short}, "nontrivial": bool(sim.faults) or any(c[2] != "sig" for c in calls),
+            "case_key": repr(([i[1] for i in ids], calls)), "counts": sorted(set(c[2] for c in calls))}
 
 
 def parse_sign_request(req):
